@@ -137,3 +137,4 @@ V('C01', 'nc-index-match-separator-as-keyword-space', CG,
 # round 5: the stored seeded breaks this property's check reports, replayed as variants
 from sa.selftest import VP  # noqa
 VP('C01', 'C01-e3', 'C01.R12', 'name-quoted')
+VP('C01', 'C01-f1', 'C01.R14', 'all-means-every-member')
